@@ -485,7 +485,8 @@ package process
 //@ contract (*Name).ExplicitPolarityValid
 //@   requires[C09] n != nil && polarityReady(deref(n))
 //@ contract checkExplicitPolarityValidity
-//@   requires[C09] formOK(p) && (forall k int :: 0 <= k && k < len(names) ==> polarityReady(names[k]))
+//@   requires[C09] formOK(p)
+//@   requires[C09] forall k int :: 0 <= k && k < len(names) ==> polarityReady(names[k])
 //@ contract (*Name).ExplicitPolarityValid
 //@   ensures[C09] C09.polarityChecked: !result ==> n.ExplicitPolarity != nil && n.Type != nil
 //@   pure
@@ -523,8 +524,7 @@ package process
 // the type annotation of a spawned channel is a well-shaped tree (or absent) before and after checking
 // (stated for the terms that exist when typechecking starts - epoch() is the allocation counter at that moment)
 //@ spec epoch() int
-//@ invariant[C09] epoch() <= allocCounter()
-//@ invariant[C09] forall x *NewForm :: born(Form(x)) < epoch() ==> x.new_name_c.Type == nil || shapeOK(x.new_name_c.Type)
+//@ invariant[C09] modesNN() && epoch() <= allocCounter() && (forall x *NewForm :: born(Form(x)) < epoch() ==> x.new_name_c.Type == nil || shapeOK(x.new_name_c.Type))
 //@ contract checkNameType
 //@   requires[C09] envTypesOK(labelledTypesEnv)
 //@   ensures[C09] C09.nameTypeReady: result == nil ==> ready(name.Type, dom(labelledTypesEnv), vals(labelledTypesEnv))
@@ -551,3 +551,111 @@ package process
 //@ contract (*CaseForm).typecheckForm
 //@   loop[C09] 1 invariant keptNewForm(Form(p))
 //@   loop[C09] 2 invariant keptNewForm(Form(p))
+
+// ---- C09: the phases of the typechecker. What the parser hands over (assumed, as far as it is about shapes):
+// well-shaped type trees and terms without nil children, names that are not yet bound to channels, and parameter /
+// provider / assumption lists that share no storage with argument lists of call terms. What each preliminary phase
+// adds for the later ones: every type that passed is `ready`.
+//@ macro envD(g *GlobalEnvironment) Set[string] = defNames(deref(g.Types), len(deref(g.Types)))
+//@ macro envV(g *GlobalEnvironment) Arr[string]types.LabelledType = defVals(deref(g.Types), len(deref(g.Types)))
+//@ macro namesShape(ns []Name) bool = forall k int :: 0 <= k && k < len(ns) ==> (ns[k].Type == nil || shapeOK(ns[k].Type)) && !callArg(addrof(ns[k]))
+//@ macro bodyOK(b Form) bool = b != nil && formOK(b) && formTree(b) && uninit(b)
+//@ macro fdefsShape(fs []FunctionDefinition) bool = forall k int :: 0 <= k && k < len(fs) ==> bodyOK(fs[k].Body) && (fs[k].Type == nil || shapeOK(fs[k].Type)) && namesShape(fs[k].Parameters)
+//@ macro procsShape(ps []*Process) bool = forall k int :: 0 <= k && k < len(ps) ==> ps[k] != nil && bodyOK(ps[k].Body) && (ps[k].Type == nil || shapeOK(ps[k].Type)) && namesShape(ps[k].Providers)
+//@ macro genvShape(g *GlobalEnvironment) bool = g != nil && g.Types != nil && g.FunctionDefinitions != nil && defsShape(deref(g.Types)) && fdefsShape(deref(g.FunctionDefinitions))
+//@ macro fdefsReady(fs []FunctionDefinition, D Set[string], V Arr[string]types.LabelledType) bool = forall k int :: 0 <= k && k < len(fs) ==> ready(fs[k].Type, D, V) && paramsReady(fs[k].Parameters, D, V)
+
+//@ contract preliminaryTypesDefinitionsChecks
+//@   requires[C09] globalEnv != nil && globalEnv.Types != nil && defsShape(deref(globalEnv.Types))
+//@   ensures[C09] C09.prelimTypes: result == nil ==> readyEnv(envD(globalEnv), envV(globalEnv))
+
+//@ contract produceFunctionDefinitionsEnvironment
+//@   requires[C09] readyEnv(dom(labelledTypesEnv), vals(labelledTypesEnv)) && fdefsReady(functionDefs, dom(labelledTypesEnv), vals(labelledTypesEnv))
+//@   ensures[C09] C09.sigmaReady: result != nil && sigmaReady(result, dom(labelledTypesEnv), vals(labelledTypesEnv))
+//@   loop[C09] 1 invariant functionTypesEnv != nil && sigmaReady(functionTypesEnv, dom(labelledTypesEnv), vals(labelledTypesEnv))
+
+//@ contract typecheckFunctionDefinitions
+//@   requires[C09] genvShape(globalEnv) && readyEnv(envD(globalEnv), envV(globalEnv)) && fdefsReady(deref(globalEnv.FunctionDefinitions), envD(globalEnv), envV(globalEnv))
+//@   ensures[C09] C09.tfdKept: modesKept() && argsFrame()
+//@   loop[C09] 1 invariant modesKept() && argsFrame()
+//@   loop[C09] 1 invariant readyEnv(dom(labelledTypesEnv), vals(labelledTypesEnv)) && sigmaReady(functionDefinitionsEnv, dom(labelledTypesEnv), vals(labelledTypesEnv))
+//@   loop[C09] 1 invariant fdefsReady(deref(globalEnv.FunctionDefinitions), dom(labelledTypesEnv), vals(labelledTypesEnv))
+//@   callsite[C09] C09.tfdParams process.produceNameTypesCtx#1: paramsReady(arg0, dom(labelledTypesEnv), vals(labelledTypesEnv))
+//@ contract produceNameTypesCtx
+//@   ensures[C09] C09.produceReady: forall D Set[string], V Arr[string]types.LabelledType :: (forall k int :: 0 <= k && k < len(names) ==> ready(names[k].Type, D, V)) ==> gammaReady(result, D, V)
+//@   loop[C09] 1 invariant forall D Set[string], V Arr[string]types.LabelledType :: (forall k int :: 0 <= k && k < len(names) ==> ready(names[k].Type, D, V)) ==> gammaReady(namesTypesCtx, D, V)
+
+// ---- preliminary checks on function definitions: every provider and parameter type is present, gets its modes and
+// passes the sanity checks; what passed is ready for the later phases
+//@ macro inList(ts []types.SessionType, t types.SessionType) bool = exists m int :: 0 <= m && m < len(ts) && ts[m] == t
+//@ macro listShape(ts []types.SessionType) bool = forall m int :: 0 <= m && m < len(ts) ==> ts[m] != nil && shapeOK(ts[m])
+//@ macro fdefListed(fd FunctionDefinition, ts []types.SessionType) bool = inList(ts, fd.Type) && (forall i int :: 0 <= i && i < len(fd.Parameters) ==> inList(ts, fd.Parameters[i].Type))
+//@ macro fdefReady(fd FunctionDefinition, D Set[string], V Arr[string]types.LabelledType) bool = ready(fd.Type, D, V) && paramsReady(fd.Parameters, D, V)
+//@ contract preliminaryFunctionDefinitionsChecks
+//@   requires[C09] genvShape(globalEnv) && readyEnv(envD(globalEnv), envV(globalEnv))
+//@   ensures[C09] C09.prelimFuncs: result == nil ==> fdefsReady(deref(globalEnv.FunctionDefinitions), envD(globalEnv), envV(globalEnv))
+//@   ensures[C09] C09.prelimFuncsKept: modesKept() && argsFrame()
+//@   loop[C09] 1 invariant modesKept() && unique != nil && listShape(typesToCheck)
+//@   loop[C09] 1 invariant forall j int :: 0 <= j && j <= idx ==> fdefListed(deref(globalEnv.FunctionDefinitions)[j], typesToCheck) && fdefReady(deref(globalEnv.FunctionDefinitions)[j], envD(globalEnv), envV(globalEnv))
+//@   loop[C09] 2 invariant modesKept() && unique != nil && listShape(typesToCheck)
+//@   loop[C09] 2 invariant forall j int :: 0 <= j && j <= idx1 ==> fdefListed(deref(globalEnv.FunctionDefinitions)[j], typesToCheck) && fdefReady(deref(globalEnv.FunctionDefinitions)[j], envD(globalEnv), envV(globalEnv))
+//@   loop[C09] 2 invariant f.Type == deref(globalEnv.FunctionDefinitions)[idx1+1].Type && f.Parameters == deref(globalEnv.FunctionDefinitions)[idx1+1].Parameters && f.Type != nil && inList(typesToCheck, f.Type)
+//@   loop[C09] 2 invariant forall i int :: 0 <= i && i <= idx ==> f.Parameters[i].Type != nil && inList(typesToCheck, f.Parameters[i].Type)
+//@   loop[C09] 3 invariant modesKept() && unique != nil && listShape(typesToCheck) && labelledTypesEnv != nil && dom(labelledTypesEnv) == envD(globalEnv) && vals(labelledTypesEnv) == envV(globalEnv)
+//@   loop[C09] 3 invariant forall j int :: 0 <= j && j <= idx1 ==> fdefListed(deref(globalEnv.FunctionDefinitions)[j], typesToCheck) && fdefReady(deref(globalEnv.FunctionDefinitions)[j], envD(globalEnv), envV(globalEnv))
+//@   loop[C09] 3 invariant f.Type == deref(globalEnv.FunctionDefinitions)[idx1+1].Type && f.Parameters == deref(globalEnv.FunctionDefinitions)[idx1+1].Parameters && fdefListed(f, typesToCheck)
+//@   loop[C09] 3 invariant forall i int :: 0 <= i && i < len(f.Parameters) ==> f.Parameters[i].Type != nil
+
+// ---- preliminary checks on processes and assumed names
+//@ macro namesReady(ns []Name, D Set[string], V Arr[string]types.LabelledType) bool = forall k int :: 0 <= k && k < len(ns) ==> ready(ns[k].Type, D, V)
+//@ macro procsReady(ps []*Process, D Set[string], V Arr[string]types.LabelledType) bool = forall k int :: 0 <= k && k < len(ps) ==> ready(ps[k].Type, D, V)
+//@ contract preliminaryProcessesChecks
+//@   requires[C09] genvShape(globalEnv) && readyEnv(envD(globalEnv), envV(globalEnv)) && procsShape(processes) && namesShape(assumedFreeNames)
+//@   ensures[C09] C09.prelimProcs: result == nil ==> procsReady(processes, envD(globalEnv), envV(globalEnv)) && namesReady(assumedFreeNames, envD(globalEnv), envV(globalEnv))
+//@   ensures[C09] C09.prelimProcsKept: modesKept() && argsFrame()
+//@   loop[C09] 1 invariant remainingAssumedFreeNames != nil && listShape(typesToCheck)
+//@   loop[C09] 1 invariant forall k int :: 0 <= k && k <= idx ==> assumedFreeNames[k].Type != nil && inList(typesToCheck, assumedFreeNames[k].Type)
+//@   loop[C09] 2 invariant modesKept() && remainingAssumedFreeNames != nil && listShape(typesToCheck) && labelledTypesEnv != nil && dom(labelledTypesEnv) == envD(globalEnv) && vals(labelledTypesEnv) == envV(globalEnv)
+//@   loop[C09] 2 invariant forall k int :: 0 <= k && k < len(assumedFreeNames) ==> assumedFreeNames[k].Type != nil && inList(typesToCheck, assumedFreeNames[k].Type)
+//@   loop[C09] 3 invariant allProcessNames != nil
+//@   loop[C09] 4 invariant allProcessNames != nil
+//@   loop[C09] 6 invariant modesKept() && allProcessNames != nil && remainingAssumedFreeNames != nil && namesReady(assumedFreeNames, envD(globalEnv), envV(globalEnv))
+//@   loop[C09] 6 invariant forall k int :: 0 <= k && k <= idx ==> ready(processes[k].Type, envD(globalEnv), envV(globalEnv))
+//@   loop[C09] 7 invariant modesKept() && allProcessNames != nil && remainingAssumedFreeNames != nil && namesReady(assumedFreeNames, envD(globalEnv), envV(globalEnv))
+//@   loop[C09] 7 invariant forall k int :: 0 <= k && k <= idx6 ==> ready(processes[k].Type, envD(globalEnv), envV(globalEnv))
+//@   loop[C09] 7 invariant len(typesToCheck) == 1 && typesToCheck[0] == processes[idx6+1].Type && typesToCheck[0] != nil && shapeOK(typesToCheck[0]) && labelledTypesEnv != nil && dom(labelledTypesEnv) == envD(globalEnv) && vals(labelledTypesEnv) == envV(globalEnv)
+//@   loop[C09] 8 invariant modesKept() && allProcessNames != nil && remainingAssumedFreeNames != nil && namesReady(assumedFreeNames, envD(globalEnv), envV(globalEnv))
+//@   loop[C09] 8 invariant forall k int :: 0 <= k && k <= idx6 + 1 ==> ready(processes[k].Type, envD(globalEnv), envV(globalEnv))
+
+// ---- typechecking the processes: the context of a process holds the types of its free names, taken from the
+// declarations of the other processes and from the assumed names
+//@ macro fromDecls(t types.SessionType, processes []*Process, assumed []Name) bool = (exists i int :: 0 <= i && i < len(processes) && t == processes[i].Type) || (exists k int :: 0 <= k && k < len(assumed) && t == assumed[k].Type)
+//@ contract getFreeNameTypes
+//@   requires[C09] process != nil && process.Body != nil && formOK(process.Body) && (forall k int :: 0 <= k && k < len(processes) ==> processes[k] != nil)
+//@   ensures[C09] C09.freeNameTypes: forall k int :: 0 <= k && k < len(result) ==> fromDecls(result[k].Type, processes, assumedFreeNames)
+//@   loop[C09] 1 invariant allAvailableNames != nil && (forall x string :: has(allAvailableNames, x) ==> allAvailableNames[x].Name.Type == allAvailableNames[x].Type && fromDecls(allAvailableNames[x].Type, processes, assumedFreeNames))
+//@   loop[C09] 2 invariant allAvailableNames != nil && (forall x string :: has(allAvailableNames, x) ==> allAvailableNames[x].Name.Type == allAvailableNames[x].Type && fromDecls(allAvailableNames[x].Type, processes, assumedFreeNames))
+//@   loop[C09] 3 invariant allAvailableNames != nil && (forall x string :: has(allAvailableNames, x) ==> allAvailableNames[x].Name.Type == allAvailableNames[x].Type && fromDecls(allAvailableNames[x].Type, processes, assumedFreeNames))
+//@   loop[C09] 4 invariant forall k int :: 0 <= k && k < len(result) ==> fromDecls(result[k].Type, processes, assumedFreeNames)
+//@   loop[C09] 4 invariant forall x string :: has(allAvailableNames, x) ==> allAvailableNames[x].Name.Type == allAvailableNames[x].Type && fromDecls(allAvailableNames[x].Type, processes, assumedFreeNames)
+
+//@ contract typecheckProcesses
+//@   requires[C09] genvShape(globalEnv) && readyEnv(envD(globalEnv), envV(globalEnv)) && fdefsReady(deref(globalEnv.FunctionDefinitions), envD(globalEnv), envV(globalEnv))
+//@   requires[C09] procsShape(processes) && procsReady(processes, envD(globalEnv), envV(globalEnv)) && namesReady(assumedFreeNames, envD(globalEnv), envV(globalEnv))
+//@   ensures[C09] C09.tpKept: modesKept() && argsFrame()
+//@   loop[C09] 1 invariant modesKept() && argsFrame()
+//@   loop[C09] 1 invariant readyEnv(dom(labelledTypesEnv), vals(labelledTypesEnv)) && sigmaReady(functionDefinitionsEnv, dom(labelledTypesEnv), vals(labelledTypesEnv))
+//@   loop[C09] 1 invariant procsReady(processes, dom(labelledTypesEnv), vals(labelledTypesEnv)) && namesReady(assumedFreeNames, dom(labelledTypesEnv), vals(labelledTypesEnv))
+//@   callsite[C09] C09.tpNames process.produceNameTypesCtx#1: namesReady(arg0, dom(labelledTypesEnv), vals(labelledTypesEnv))
+
+// ---- the entry point and its worker: exactly one verdict is handed over, after which the worker does nothing more
+//@ contract assignTypesToProcessProviders
+//@   requires[C09] procsShape(processes)
+//@ contract SetTypesToNames
+//@   requires[C09] t == nil || shapeOK(t)
+//@ macro programShape(processes []*Process, assumed []Name, g *GlobalEnvironment) bool = genvShape(g) && procsShape(processes) && namesShape(assumed)
+//@ contract typecheckFunctionsAndProcesses
+//@   requires[C09] programShape(processes, assumedFreeNames, globalEnv) && errorChan != doneChan
+//@   ensures[C09] C09.oneVerdict: sent[errorChan] + sent[doneChan] == old(sent[errorChan]) + old(sent[doneChan]) + 1
+//@ contract Typecheck
+//@   requires[C09] programShape(processes, assumedFreeNames, globalEnv)
